@@ -321,11 +321,13 @@ def build_event(ev: dict, order=None):
 
 def gen_scenario(seed: int, stream: str = "shocked", **over) -> dict:
     rng = random.Random(seed)
+    if stream == "starve":
+        return gen_starve(seed, rng)
     tb = gen_table(rng, **{kk: over[kk] for kk in ("m", "n", "k", "kind", "scale") if kk in over})
     shock_prone = stream in ("shortage", "crash")
     cfg = gen_model_cfg(rng, tb, shock_prone=shock_prone)
     cfg.update(over.get("cfg", {}))
-    T = over.get("T", rng.choice([12, 20, 30]))
+    T = over.get("T", rng.choice([12, 20, 30]) if stream != "mild" else rng.choice([30, 45]))
     sc = {"seed": seed, "stream": stream, "table": tb, "model": cfg, "T": T, "events": [],
           "sim": {"register_stocks": False, "save_records": [], "events_mode": "one"}}
     if stream == "eventfree":
@@ -343,6 +345,17 @@ def gen_scenario(seed: int, stream: str = "shocked", **over) -> dict:
     for i in range(nev):
         et = types[i % len(types)] if types else None
         ev = gen_event(rng, tb, cfg, T, etype=et, capital=K, max_occ=over.get("max_occ"))
+        if stream == "mild" and ev["type"] != "arbitrary":
+            # small shocks: the recovery tail passes through the closeness tolerances of the model
+            f = rng.choice([1e-2, 1e-3, 1e-4])
+            for kk in ev["impact"]:
+                ev["impact"][kk] *= f
+            if ev.get("house"):
+                for kk in ev["house"]:
+                    ev["house"][kk] *= f
+        if stream == "mild" and ev["type"] == "arbitrary":
+            for kk in ev["impact"]:
+                ev["impact"][kk] = rng.choice([1e-3, 1e-4, 0.01])
         if stream in ("shortage", "crash") and ev["type"] != "arbitrary":
             # strong shocks: a large share of capital
             for kk in ev["impact"]:
@@ -404,6 +417,32 @@ def gen_scenario(seed: int, stream: str = "shocked", **over) -> dict:
                     if ev["type"] != "arbitrary" and kk in ev["impact"]:
                         ev["impact"][kk] *= f
     return sc
+
+
+def gen_starve(seed: int, rng: random.Random) -> dict:
+    """an input used in tiny amounts (below the technology threshold, hence never constraining) whose
+    suppliers lose almost all capacity for a long time while its inventory is short"""
+    m, n, k = rng.choice([1, 2]), rng.choice([2, 3]), 1
+    tb = gen_table(rng, m=m, n=n, k=k, kind="dense", scale=10.0 ** rng.choice([0, 3]))
+    regs, secs, cats = labels(tb)
+    N = m * n
+    s = rng.randrange(n)                        # the starved input
+    j = rng.choice([jj for jj in range(N) if jj % n != s])   # a buyer from another sector
+    for r in range(m):
+        tb["Z"][r * n + s][j] = 1e-9 * tb["scale"]
+    tb["kind"] = "below_thr"
+    cfg = gen_model_cfg(rng, tb)
+    cfg["inventory_dict"] = {sec: (rng.choice([2, 3]) if sec == secs[s] else 90) for sec in secs}
+    cfg["inf_sect"] = None
+    cfg["main_inv_dur"] = 90
+    if cfg["class"] == "psi":
+        cfg["psi"] = rng.choice([0.8, 0.5])
+        cfg["restoration_tau"] = rng.choice([60, 90])
+    T = 40
+    ev = {"type": "arbitrary", "occ": 2, "dur": 30, "name": None,
+          "impact": {f"{r}|{secs[s]}": rng.choice([0.9, 0.95, 1.0]) for r in regs}, "recovery_tau": 5, "curve": "linear"}
+    return {"seed": seed, "stream": "starve", "table": tb, "model": cfg, "T": T, "events": [ev],
+            "sim": {"register_stocks": False, "save_records": [], "events_mode": "one"}}
 
 
 def build_sim(sc: dict, model=None, outdir=None):
